@@ -41,6 +41,7 @@ const c15SupplyAddr = "oneledgerSupplyAddress"
 const c15SupplyID = 99
 
 var c15Contract = ethcommon.HexToAddress("0x00000000000000000000000000000000000c0de1")
+var c15Token = ethcommon.HexToAddress("0x0000000000000000000000000000000000070c31")
 
 type c15Tx struct {
 	ID           int
@@ -111,6 +112,7 @@ type c15Cfg struct {
 	Seed        int64
 	Blocks      int
 	Init        int64 // initial wrapped balance of user 1 and 2 (and matching supply counter)
+	ERC         bool  // register one ERC-20 token (currency TTC) in the chain driver options
 }
 
 // ---------- the world of one run ----------
@@ -204,6 +206,12 @@ func c15NewWorld(cfg c15Cfg) *c15World {
 			ContractABI: contract.LockRedeemABI, ContractAddress: c15Contract,
 			ERCContractABI: contract.LockRedeemERCABI, ERCContractAddress: c15Contract,
 			TotalSupply: fmt.Sprint(cfg.Cap), TotalSupplyAddr: c15SupplyAddr, BlockConfirmation: 1,
+		}
+		if cfg.ERC {
+			st.Currencies = append(st.Currencies, balance.Currency{Id: 4, Name: "TTC", Chain: chain.ETHEREUM, Decimal: 18, Unit: "ttc"})
+			opt := st.Governance.ETHCDOption
+			opt.TokenList = []ethchain.ERC20Token{{TokName: "TTC", TokAddr: c15Token, TokAbi: contract.ERC20BasicABI, TokTotalSupply: "1000000"}}
+			st.Governance.ETHCDOption = opt
 		}
 		for i, k := range w.wkeys {
 			st.Witness = append(st.Witness, consensus.Stake{ValidatorAddress: k.Addr, StakeAddress: k.Addr, Pubkey: k.Pub, ECDSAPubKey: k.Pub,
@@ -900,7 +908,15 @@ func c15Main(args []string) int {
 	shardID := fs.Int("shard", 0, "shard id (file names, seed offset)")
 	script := fs.String("script", "", "JSON file with a list of scripted cases to run first")
 	cfgFile := fs.String("cfg", "", "JSON file with a list of run configurations to re-run (replay)")
+	erc := fs.String("erc20", "", "run the ERC-20 lock resubmission scenarios on the real application and write what happened to this file")
+	c18 := fs.String("c18", "", "write the two crash inputs observed while building C15 (for C18) to this file, after trying them")
 	fs.Parse(args)
+	if *c18 != "" {
+		return c15CrashInputs(*c18)
+	}
+	if *erc != "" {
+		return c15ERCProbe(*erc)
+	}
 
 	// the call data constant used for lock transactions must be what the ABI packs
 	if tx, err := ethchain.DecodeTransaction(c15LockBytes(big.NewInt(1), c15Contract, c15LockData, 1, c15S(1))); err != nil {
@@ -1025,5 +1041,228 @@ func c15Main(args []string) int {
 	bz, _ := json.MarshalIndent(rep, "", " ")
 	_ = os.WriteFile(fmt.Sprintf("%s/c15_report_%d.json", *outDir, *shardID), bz, 0644)
 	say("c15: %d cases, %d steps, %d mints, %d refunds\n", rep.Cases, rep.Steps, rep.Mints, rep.Refunds)
+	return 0
+}
+
+// ---------- crash inputs for C18 ----------
+
+type c15Crash struct {
+	ID       string   `json:"id"`
+	Note     string   `json:"note"`
+	Site     string   `json:"site"`
+	Genesis  string   `json:"genesis"`
+	SetupHex []string `json:"setup_txs_hex"`
+	TxHex    string   `json:"tx_hex"`
+	TxType   string   `json:"tx_type"`
+	Payload  string   `json:"payload_json"`
+	Observed string   `json:"observed"`
+}
+
+// deliver tx on a fresh world after the setup txs; report what the application did
+func c15TryCrash(setup func(w *c15World) [][]byte, mk func(w *c15World) ([]byte, string)) (setupHex []string, txHex, payload, observed string) {
+	w := c15NewWorld(c15Cfg{NWit: 4, Cap: 1000000, Seed: 1, FlagFrom: -1})
+	defer func() {
+		defer func() { recover() }()
+		w.rep.Close()
+	}()
+	w.rep.BeginBlock(&BlockIn{})
+	for _, tx := range setup(w) {
+		res := w.rep.DeliverTx(tx)
+		setupHex = append(setupHex, hex.EncodeToString(tx))
+		if res.Code != 0 {
+			observed = "setup tx failed: " + res.Log
+			return
+		}
+	}
+	tx, pl := mk(w)
+	txHex, payload = hex.EncodeToString(tx), pl
+	res := w.rep.DeliverTx(tx)
+	closed := false
+	func() {
+		defer func() {
+			if r := recover(); r != nil {
+				closed = true
+			}
+		}()
+		w.rep.EndBlock()
+		w.rep.Commit()
+	}()
+	observed = fmt.Sprintf("DeliverTx returned code %d log %q; application closed afterwards (EndBlock/Commit panics): %v", res.Code, res.Log, closed)
+	return
+}
+
+func c15CrashInputs(path string) int {
+	gen := "genesis as built by harness/c15.go c15NewWorld: ETHCDOption{ContractABI: contract.LockRedeemABI, ContractAddress: 0x..0c0de1, TotalSupply: 1000000, " +
+		"TotalSupplyAddr: oneledgerSupplyAddress}, 4 witnesses (seedKey(100..103)), signer = user 1 (seedKey(60)), funded with OLT"
+	out := []c15Crash{}
+	{
+		c := c15Crash{ID: "C15.redeem_bytes_without_selector", TxType: "ETH_REDEEM (0x93)", Genesis: gen,
+			Site: "chains/ethereum/offline_chain_driver.go ParseRedeem: ss := strings.Split(hex(data), selector); ss[1] with len(ss)==1 (called from action/eth/ext_redeem.go runRedeem, CheckTx and DeliverTx)",
+			Note: "an ETH_REDEEM whose ETHTxn bytes do not contain the redeem(uint256) selector (here: a well-formed lock transaction): index out of range [1] with length 1 -> panic in the handler -> handlePanic closes the application"}
+		c.SetupHex, c.TxHex, c.Payload, c.Observed = c15TryCrash(func(w *c15World) [][]byte { return nil }, func(w *c15World) ([]byte, string) {
+			k := w.idKey[1]
+			m := acteth.Redeem{Owner: k.Addr, To: ethcommon.BytesToAddress(k.Addr), ETHTxn: c15LockBytes(big.NewInt(5), c15Contract, c15LockData, 1, c15S(1))}
+			pl, _ := m.Marshal()
+			return mkTx(action.ETH_REDEEM, m, GAS, "c18", k), string(pl)
+		})
+		out = append(out, c)
+	}
+	{
+		c := c15Crash{ID: "C15.report_negative_vote_index", TxType: "ETH_REPORT_FINALITY_MINT (0x92)", Genesis: gen,
+			Site: "data/ethereum/tracker.go AddVote: t.Witnesses[index] with index < 0 (Validate rejects VoteIndex < 0 but DeliverTx does not call Validate; ProcessCheck = runCheckFinality has the same path)",
+			Note: "a finality report with VoteIndex -1 for an existing ongoing tracker, sent by an address that has not voted: `len(t.Witnesses) <= int(index)` is false for a negative index, CheckIfVoted is false, then t.Witnesses[-1] panics"}
+		c.SetupHex, c.TxHex, c.Payload, c.Observed = c15TryCrash(func(w *c15World) [][]byte {
+			k := w.idKey[1]
+			id := w.addTx(c15LockBytes(big.NewInt(5), c15Contract, c15LockData, 1, c15S(1)))
+			return [][]byte{mkTx(action.ETH_LOCK, acteth.Lock{Locker: k.Addr, ETHTxn: w.txs[id-1].Bytes}, GAS, "c18-setup", k)}
+		}, func(w *c15World) ([]byte, string) {
+			k := w.idKey[20]
+			var tn ethchain.TrackerName
+			bz, _ := hex.DecodeString(w.nameHex[0])
+			tn.SetBytes(bz)
+			m := &acteth.ReportFinality{TrackerName: tn, Locker: w.idAddr[1], ValidatorAddress: k.Addr, VoteIndex: -1, Success: true}
+			pl, _ := m.Marshal()
+			return mkTx(action.ETH_REPORT_FINALITY_MINT, m, GAS, "c18", k), string(pl)
+		})
+		out = append(out, c)
+	}
+	bz, _ := json.MarshalIndent(map[string]interface{}{
+		"comment": "Crash inputs observed while building the C15 check (they are C18's subject; the C15 generator never submits them). " +
+			"tx_hex = the serialized signed transaction as passed to DeliverTx/CheckTx; setup_txs_hex must be delivered first in the same chain. " +
+			"Regenerate / re-try with: build/vh c15 -c18 <file>",
+		"inputs": out}, "", " ")
+	if err := os.WriteFile(path, bz, 0644); err != nil {
+		fmt.Fprintln(os.Stderr, err)
+		return 2
+	}
+	for _, c := range out {
+		say("%s: %s\n", c.ID, c.Observed)
+	}
+	return 0
+}
+
+// ---------- ERC-20 lock resubmission probe (package-external, whole application) ----------
+
+func c15ERCLockBytes(amount int64, nonce uint64, tail int64) []byte {
+	data := ethcommon.FromHex("a9059cbb")
+	recv := make([]byte, 32)
+	copy(recv[12:], c15Contract.Bytes())
+	amt := make([]byte, 32)
+	big.NewInt(amount).FillBytes(amt)
+	data = append(append(data, recv...), amt...)
+	return c15LockBytes(big.NewInt(0), c15Token, data, nonce, c15S(tail))
+}
+
+type c15ERCStep struct {
+	Do      string            `json:"do"`
+	Ok      bool              `json:"ok"`
+	Log     string            `json:"log,omitempty"`
+	TTC     map[string]string `json:"ttc_balances"`
+	Stores  string            `json:"tracker_stores"`
+	Ongoing []c15Tracker      `json:"ongoing"`
+	Passed  []c15Tracker      `json:"passed"`
+	TxHex   string            `json:"tx_hex,omitempty"`
+}
+
+func (w *c15World) ttc() map[string]string {
+	view := w.rep.View()
+	ser := serialize.GetSerializer(serialize.PERSISTENT)
+	m := map[string]string{}
+	for _, id := range []int{1, 2, c15SupplyID} {
+		amt := balance.NewAmount(0)
+		if v, ok := view["b_"+w.idAddr[id].String()+"_TTC"]; ok && len(v) > 0 {
+			_ = ser.Deserialize([]byte(v), amt)
+		}
+		m[fmt.Sprintf("acct%d", id)] = amt.BigInt().String()
+	}
+	return m
+}
+
+func (w *c15World) stores() string {
+	o := w.observe(true)
+	f := func(l []c15Tracker) string {
+		p := []string{}
+		for _, t := range l {
+			p = append(p, fmt.Sprintf("{type %d state %d owner %d votes %v}", t.Type, t.State, t.Owner, t.Votes))
+		}
+		return "[" + strings.Join(p, " ") + "]"
+	}
+	return "ongoing " + f(o.Ongoing) + " passed " + f(o.Passed) + " failed " + f(o.Failed)
+}
+
+func c15ERCScenario(title string, script func(w *c15World, step func(do string, tx []byte))) map[string]interface{} {
+	w := c15NewWorld(c15Cfg{NWit: 4, Cap: 1000000, Seed: 1, FlagFrom: -1, ERC: true})
+	defer w.rep.Close()
+	steps := []c15ERCStep{}
+	w.rep.BeginBlock(&BlockIn{})
+	step := func(do string, tx []byte) {
+		if tx == nil { // block boundary
+			w.rep.EndBlock()
+			w.rep.Commit()
+			w.rep.BeginBlock(&BlockIn{})
+			o := w.observe(true)
+			steps = append(steps, c15ERCStep{Do: do, Ok: true, TTC: w.ttc(), Stores: w.stores(), Ongoing: o.Ongoing, Passed: o.Passed})
+			return
+		}
+		res := w.rep.DeliverTx(tx)
+		o := w.observe(res.Code == 0)
+		steps = append(steps, c15ERCStep{Do: do, Ok: res.Code == 0, Log: res.Log, TTC: w.ttc(), Stores: w.stores(), Ongoing: o.Ongoing, Passed: o.Passed, TxHex: hex.EncodeToString(tx)})
+	}
+	script(w, step)
+	return map[string]interface{}{"scenario": title, "steps": steps, "final_ttc": w.ttc(), "final_stores": w.stores()}
+}
+
+func c15ERCProbe(path string) int {
+	ext := c15ERCLockBytes(100, 7, 4242)
+	lock := func(w *c15World, by int) []byte {
+		k := w.idKey[by]
+		w.addTx(ext)
+		return mkTx(action.ERC20_LOCK, acteth.ERC20Lock{Locker: k.Addr, ETHTxn: ext}, GAS, fmt.Sprintf("erc-%d-%d", by, len(w.txs)+rand.Intn(1<<30)), k)
+	}
+	report := func(w *c15World, wi int, locker int) []byte {
+		k := w.idKey[20+wi]
+		var tn ethchain.TrackerName
+		tn.SetBytes(ethcommon.BytesToHash(ext).Bytes())
+		m := &acteth.ReportFinality{TrackerName: tn, Locker: w.idAddr[locker], ValidatorAddress: k.Addr, VoteIndex: int64(wi), Success: true}
+		return mkTx(action.ETH_REPORT_FINALITY_MINT, m, GAS, fmt.Sprintf("r-%d-%d", wi, rand.Intn(1<<30)), k)
+	}
+	out := []map[string]interface{}{}
+	out = append(out, c15ERCScenario("A: the same ERC-20 lock transaction is submitted again after its tracker passed: second tracker, second mint", func(w *c15World, step func(string, []byte)) {
+		step("ERC20_LOCK of external tx X (transfer of 100 TTC to the contract) by account 1", lock(w, 1))
+		step("end of block", nil)
+		for i := 0; i < 3; i++ {
+			step(fmt.Sprintf("witness %d reports success", i), report(w, i, 1))
+		}
+		step("end of block (Released)", nil)
+		step("end of block (clean-up: tracker moves to the passed store)", nil)
+		step("ERC20_LOCK of the SAME external tx X by account 1 again", lock(w, 1))
+		step("end of block", nil)
+		for i := 0; i < 3; i++ {
+			step(fmt.Sprintf("witness %d reports success again (X is still final on Ethereum)", i), report(w, i, 1))
+		}
+		step("end of block", nil)
+		step("end of block", nil)
+	}))
+	out = append(out, c15ERCScenario("B: a pending ERC-20 lock is overwritten by a resubmission from another account: votes reset, owner replaced, the mint goes to the second submitter", func(w *c15World, step func(string, []byte)) {
+		step("ERC20_LOCK of external tx X by account 1", lock(w, 1))
+		step("end of block", nil)
+		step("witness 0 reports success", report(w, 0, 1))
+		step("witness 1 reports success", report(w, 1, 1))
+		step("ERC20_LOCK of the SAME external tx X by account 2", lock(w, 2))
+		step("end of block", nil)
+		for i := 0; i < 3; i++ {
+			step(fmt.Sprintf("witness %d reports success", i), report(w, i, 2))
+		}
+		step("end of block", nil)
+		step("end of block", nil)
+	}))
+	bz, _ := json.MarshalIndent(out, "", " ")
+	if err := os.WriteFile(path, bz, 0644); err != nil {
+		fmt.Fprintln(os.Stderr, err)
+		return 2
+	}
+	for _, sc := range out {
+		say("%s\n  final TTC %v\n  %s\n", sc["scenario"], sc["final_ttc"], sc["final_stores"])
+	}
 	return 0
 }
